@@ -753,13 +753,17 @@ impl ScanOpts<'_> {
 pub struct Kit {
     pub rt: tokio::runtime::Runtime,
     pub session: Arc<Session>,
+    /// wall-clock bound of one lance call made through the kit (`lance_call`); exceeding it is reported as
+    /// `KitError { kind: Other, msg: "timeout: …" }` instead of hanging the run (a seeded change once made the legacy
+    /// chunker emit chunks forever and the writer fill the memory)
+    pub op_timeout: std::time::Duration,
     tempdirs: Vec<tempfile::TempDir>,
 }
 
 impl Kit {
     pub fn new() -> Self {
         let rt = tokio::runtime::Builder::new_current_thread().enable_all().build().expect("tokio runtime");
-        Self { rt, session: Arc::new(Session::default()), tempdirs: vec![] }
+        Self { rt, session: Arc::new(Session::default()), op_timeout: std::time::Duration::from_secs(30), tempdirs: vec![] }
     }
 
     /// drop every cached object of the session (call between cases)
@@ -770,6 +774,15 @@ impl Kit {
 
     pub fn block_on<F: std::future::Future>(&self, f: F) -> F::Output {
         self.rt.block_on(f)
+    }
+
+    /// run one lance call under `op_timeout`
+    pub fn lance_call<T, F: std::future::Future<Output = lance::Result<T>>>(&self, what: &str, f: F) -> KitResult<T> {
+        let t = self.op_timeout;
+        match self.rt.block_on(async move { tokio::time::timeout(t, f).await }) {
+            Ok(r) => r.map_err(KitError::from),
+            Err(_) => Err(KitError::other(format!("timeout: {what} did not finish within {} s", t.as_secs()))),
+        }
     }
 
     /// a `memory://` uri never handed out before in this process
@@ -806,10 +819,10 @@ impl Kit {
         let params = knobs.write_params(mode, self.session.clone());
         let reader = Self::reader(spec, batches);
         let r = match dest {
-            Ok(ds) => self.block_on(Dataset::write(reader, WriteDestination::Dataset(Arc::new(ds.clone())), Some(params))),
-            Err(uri) => self.block_on(Dataset::write(reader, uri, Some(params))),
+            Ok(ds) => self.lance_call("write", Dataset::write(reader, WriteDestination::Dataset(Arc::new(ds.clone())), Some(params))),
+            Err(uri) => self.lance_call("write", Dataset::write(reader, uri, Some(params))),
         };
-        r.map_err(KitError::from)
+        r
     }
 
     pub fn create(&self, uri: &str, spec: &SchemaSpec, batches: &[Vec<Row>], knobs: &Knobs) -> KitResult<Dataset> {
@@ -829,7 +842,7 @@ impl Kit {
         if let Some(v) = version {
             b = b.with_version(v);
         }
-        self.block_on(b.load()).map_err(KitError::from)
+        self.lance_call("open", b.load())
     }
 
     /// the schema spec a dataset currently has, if it is a kit schema
@@ -859,7 +872,7 @@ impl Kit {
         let at;
         let ds = match opts.version {
             Some(v) => {
-                at = self.block_on(ds.checkout_version(v))?;
+                at = self.lance_call("checkout_version", ds.checkout_version(v))?;
                 &at
             }
             None => ds,
@@ -881,7 +894,7 @@ impl Kit {
         if let Some(b) = opts.batch_size {
             sc.batch_size(b);
         }
-        let batch = self.block_on(sc.try_into_batch())?;
+        let batch = self.lance_call("scan", sc.try_into_batch())?;
         let mut rows = spec.decode(&batch, &meta).map_err(|e| KitError::other(format!("decode: {}", e.0)))?;
         if !opts.ordered {
             rows.sort();
@@ -890,7 +903,7 @@ impl Kit {
     }
 
     pub fn count_rows(&self, ds: &Dataset, filter: Option<&str>) -> KitResult<usize> {
-        self.block_on(ds.count_rows(filter.map(|s| s.to_string()))).map_err(KitError::from)
+        self.lance_call("count_rows", ds.count_rows(filter.map(|s| s.to_string())))
     }
 
     /// per-fragment `(id, physical_rows, num_deletions)` in manifest order.  A fragment whose manifest entry has no
